@@ -81,16 +81,25 @@ class SList(Sym):
     symbolic index (memoised on the syntactic index term), or None when the list is over
     a z3 sequence ``seq``.
     ``uid``: name used for measures.
+    ``parts``: None for a base sequence, or -- for a concatenation -- the list of its pieces
+    ``('elem', value)`` / ``('base', SList)`` in order (structural normal form, used by str.join).
     """
-    __slots__ = ('length', 'elem', 'uid', 'cache', 'seq', 'immutable')
+    __slots__ = ('length', 'elem', 'uid', 'cache', 'seq', 'immutable', 'volatile', 'parts', 'elem_ty', 'ident', 'aux')
 
-    def __init__(self, length, elem, uid, seq=None):
+    def __init__(self, length, elem, uid, seq=None, ident=None):
         self.length = length
         self.elem = elem
         self.uid = uid
         self.cache = {}
         self.seq = seq
         self.immutable = True
+        self.volatile = False    # True: the element function may case-split, elements are not memoised here
+        # identity for ghost functions of the list: (family name, index terms) -- an input list is its own
+        # family; a list-valued attribute of an indexed / by-id object is identified by the owner's index
+        self.ident = ident
+        self.elem_ty = None        # shape of the elements, when created from a ListOf shape
+        self.parts = None
+        self.aux = {}          # measures etc. (pyvc.texts)
 
     def __repr__(self):
         return 'SList(%s, len=%s)' % (self.uid, self.length)
